@@ -105,7 +105,7 @@ end Expr
 
 /-! ## abstract programs -/
 
-structure Operand where
+structure POperand where
   mode : Option Mode
   expr : List ETok
   deriving Repr, Inhabited
@@ -113,7 +113,7 @@ structure Operand where
 inductive MetaKind | name | author | strategy deriving DecidableEq, Repr
 
 inductive Item
-  | instr (labels : List String) (op : String) (md : Option String) (a : Operand) (b : Option Operand)
+  | instr (labels : List String) (op : String) (md : Option String) (a : POperand) (b : Option POperand)
   | equ (name : String) (expr : List ETok)
   | org (expr : List ETok)
   | end_ (expr : Option (List ETok))
@@ -143,7 +143,7 @@ structure Meaning where
 def substName (n : String) (v : List ETok) (ts : List ETok) : List ETok :=
   ts.flatMap (fun t => if t == .name n then v else [t])
 
-def substOperand (n : String) (v : List ETok) (o : Operand) : Operand := { o with expr := substName n v o.expr }
+def substOperand (n : String) (v : List ETok) (o : POperand) : POperand := { o with expr := substName n v o.expr }
 
 mutual
   /-- replace the counter by a number everywhere it may legitimately occur -/
@@ -174,7 +174,8 @@ def equsOf (items : List Item) : List (String × List ETok) :=
 def expandEqus : Nat → List (String × List ETok) → List ETok → Option (List ETok)
   | 0, _, ts => if ts.any (fun | .name _ => true | _ => false) then none else some ts
   | f + 1, tab, ts =>
-    if ts.all (fun | .name n => (tab.find? (·.1 == n)).isNone | _ => true) then some ts
+    if ts.length > 20000 then none   -- runaway growth: only a cyclic table does that
+    else if ts.all (fun | .name n => (tab.find? (·.1 == n)).isNone | _ => true) then some ts
     else expandEqus f tab (ts.flatMap (fun t =>
       match t with
       | .name n => match tab.find? (·.1 == n) with
@@ -182,26 +183,29 @@ def expandEqus : Nat → List (String × List ETok) → List ETok → Option (Li
         | none => [t]
       | _ => [t]))
 
-/-- unroll every FOR block, outermost first, in textual order; `none` = a count cannot be
-    evaluated from the EQUs that precede the block (or the fuel — one unit per block expansion —
-    is exhausted) -/
-def unrollAux : Nat → List Item → List Item → Option (List Item)
-  | 0, _, _ => none
-  | fuel + 1, items, before =>
+/-- unroll every FOR block, outermost first, in textual order, counting the block expansions
+    performed; `none` = a count cannot be evaluated from the EQUs that precede the block (or the
+    fuel — one unit per block expansion — is exhausted) -/
+def unrollAux : Nat → List Item → List Item → Nat → Option (List Item × Nat)
+  | 0, _, _, _ => none
+  | fuel + 1, items, before, k =>
     match items with
-    | [] => some before
+    | [] => some (before, k)
     | .for_ labels ctr cnt body :: rest => do
       let toks ← expandEqus 64 (equsOf before) cnt
       let n ← Expr.evalInt toks
       if n < 0 then none else
       let copies := (List.range n.toNat).flatMap (fun i => substItems ctr [.num (i + 1)] body)
       -- inner blocks of the copies are unrolled in place, with the EQUs seen so far
-      let inner ← unrollAux fuel copies before
+      let (inner, k') ← unrollAux fuel copies before (k + 1)
       let emitted := inner.drop before.length
-      unrollAux fuel rest (before ++ attachLabels labels emitted)
-    | i :: rest => unrollAux fuel rest (before ++ [i])
+      unrollAux fuel rest (before ++ attachLabels labels emitted) k'
+    | i :: rest => unrollAux fuel rest (before ++ [i]) k
 
-def unroll (items : List Item) : Option (List Item) := unrollAux 100000 items []
+def unroll (items : List Item) : Option (List Item) := (unrollAux 100000 items [] 0).map (·.1)
+
+/-- number of FOR block expansions the program needs (one assembler pass each) -/
+def expansions (items : List Item) : Nat := ((unrollAux 100000 items [] 0).map (·.2)).getD 0
 
 /-! ### defaults -/
 
@@ -252,7 +256,7 @@ def evalAt (c : Cfg) (t : Tables) (line : Nat) (ts : List ETok) : Option Int := 
 def reduce (M : Nat) (v : Int) : UInt64 := UInt64.ofNat (v % (M : Int)).toNat
 
 def instrMeaning (c : Cfg) (t : Tables) (line : Nat) (opS : String) (mdS : Option String)
-    (a : Operand) (b : Option Operand) : Option Instr := do
+    (a : POperand) (b : Option POperand) : Option Instr := do
   let op ← opOfString opS
   if c.legacy && !is88Op op then none
   let defMode : Mode := if c.legacy && op == .dat then .immediate else .direct
@@ -285,6 +289,11 @@ def meaningFlat (c : Cfg) (items : List Item) : Option Meaning := do
     | .instr ls _ _ _ _ => (acc.1 ++ ls.map (fun l => (l, acc.2)), acc.2 + 1)
     | _ => acc) ([], 0)
   let t : Tables := { labels, equs := equsOf items ++ predefined c }
+  -- every symbol (label, EQU name, predefined constant) is defined exactly once
+  let defined := labels.map (·.1) ++ (equsOf items).map (·.1) ++ (predefined c).map (·.1)
+  if defined.eraseDups.length != defined.length then none
+  -- a cyclic EQU table has no meaning, used or not
+  if !(t.equs.all (fun (_, e) => (expandEqus 64 t.equs e).isSome)) then none
   -- instructions
   let (code?, _) := items.foldl (fun (acc : Option (List Instr) × Nat) it =>
     match it, acc.1 with
